@@ -92,7 +92,7 @@ func runC13(c *core.Ctx) {
 	}
 	for i := 0; i < cycles; i++ {
 		rng := rand.New(rand.NewSource(rng0.Int63()))
-		kind := []string{"idle", "watches", "pending-events", "pending-error", "concurrent-close", "close-racing-api"}[rng.Intn(6)]
+		kind := []string{"idle", "watches", "pending-events", "pending-error", "concurrent-close", "close-racing-api", "deleted-watch-pending"}[rng.Intn(7)]
 		buf := []int{-1, 0, 8, 4096}[rng.Intn(4)]
 		var w *fsnotify.Watcher
 		var err error
@@ -106,6 +106,16 @@ func runC13(c *core.Ctx) {
 			return
 		}
 		fd := fsnotify.VerifInotifyFd(w)
+		if i < 20 {
+			// a descriptor a child process would inherit stays alive (with all its watches) after Close
+			if fl, err := unix.FcntlInt(uintptr(fd), unix.F_GETFD, 0); err == nil {
+				c.Count("cloexec_probes", 1)
+				if fl&unix.FD_CLOEXEC == 0 {
+					c.Violate("descriptor-inheritable", fmt.Sprintf("the Watcher's inotify descriptor %d is not close-on-exec: any child process started while it is open keeps the instance and all its kernel watches alive after Close", fd), nil)
+					return
+				}
+			}
+		}
 		nw := 0
 		if kind != "idle" {
 			nw = 1 + rng.Intn(40)
@@ -113,7 +123,7 @@ func runC13(c *core.Ctx) {
 				w.Add(dirs[k])
 			}
 		}
-		consume := kind != "pending-events" && kind != "pending-error"
+		consume := kind != "pending-events" && kind != "pending-error" && kind != "deleted-watch-pending"
 		cdone := make(chan struct{})
 		go func() {
 			defer close(cdone)
@@ -160,6 +170,12 @@ func runC13(c *core.Ctx) {
 				os.WriteFile(p, nil, 0o644)
 				os.Remove(p)
 			}
+		case "deleted-watch-pending":
+			f := filepath.Join(base, "dw")
+			os.WriteFile(f, nil, 0o644)
+			w.Add(f)
+			os.Chmod(f, 0o600)
+			os.Remove(f) // the kernel drops this watch; nobody has processed that yet when Close runs
 		case "pending-error":
 			f := filepath.Join(base, "pe")
 			os.WriteFile(f, nil, 0o644)
